@@ -12,6 +12,12 @@ Proof.
   destruct (accept (emit its')) eqn:A; cbn [negb]; [|discriminate]. intro E. injection E as <-. exact A.
 Qed.
 
+(* ... hence whatever the acceptor guarantees about the bytes it accepts holds of the output *)
+Lemma checked_wf_partial_l (wf : str -> Prop) o (accept : str -> bool) r its :
+  (forall b, accept b = true -> wf b) ->
+  xmlCheckIsValid o = true -> checked_enc o accept r = Ok its -> wf (emit its).
+Proof. intros Hwf Hc E. apply Hwf. exact (checked_sound_l o accept r its Hc E). Qed.
+
 (* with the check off nothing is rejected *)
 Lemma checked_off_l o accept r : xmlCheckIsValid o = false -> checked_enc o accept r = r.
 Proof. intro Hc. unfold checked_enc. destruct r; try reflexivity. rewrite Hc. reflexivity. Qed.
